@@ -83,6 +83,15 @@ CASES = [
          setup="from chempy.properties.water_permittivity_bradley_pitzer_1979 import water_permittivity as f",
          vars={"T": (220, 745), "P": (Fraction(1, 2), 1900)}, plain="f(T, P, backend=be)",
          units="f(T*U.kelvin, P*U.bar, units=U, backend=be)", unit="1", warn=("T", 273.15, 623.15)),
+    dict(name="water_permittivity_defaults", targets=["chempy.properties.water_permittivity_bradley_pitzer_1979.water_permittivity"],
+         setup="from chempy.properties.water_permittivity_bradley_pitzer_1979 import water_permittivity as f",
+         vars={"T": (274, 620), "P": (Fraction(1, 2), 900)},
+         plain="(f(T, warn=False, backend=be), f(T, None, None, None, False, False, be), f(T, P, warn=False, backend=be), "
+               "f(T, P, U=f(just_return_U=True), warn=False, backend=be))",
+         units="(f(T*U.kelvin, units=U, warn=False, backend=be), f(T*U.kelvin, None, U, None, False, False, be), "
+               "f(T*U.kelvin, P*U.bar, units=U, warn=False, backend=be), f(T*U.kelvin, P*U.bar, units=U, U=f(units=U, just_return_U=True), warn=False, backend=be))",
+         unit="1",
+         formula="(f(T, Const(1), warn=False, backend=be), f(T, Const(1), warn=False, backend=be), f(T, P, warn=False, backend=be), f(T, P, warn=False, backend=be))"),
     dict(name="lg_solubility_ratio", targets=["chempy.properties.gas_sol_electrolytes_schumpe_1993.lg_solubility_ratio"],
          setup="from chempy.properties.gas_sol_electrolytes_schumpe_1993 import lg_solubility_ratio as f, p_gas_rM, p_ion_rM",
          vars={"c1": POS, "c2": POS}, plain="f({'Na+': c1, 'Cl-': c2}, 'O2')",
